@@ -27,7 +27,9 @@ def gen_texts(ctx):
     segment boundary for 1-4 segments; all four limits (254/153 septets, 127/67 UTF-16 units)."""
     rng = ctx.rng
     out = []
-    for limit, two, one in ((254, '€', 'a'), (153, '{', 'b'), (152, '€', 'c'), (127, '😀', 'ы'), (67, '𝄞', 'ж'), (66, '😀', 'ы')):
+    # astral characters of every high-surrogate octet: D8 (U+1xxxx), D9/DA (planes 5-12), DB (planes 13-16: tag characters, private use, U+10FFFF)
+    for limit, two, one in ((254, '€', 'a'), (153, '{', 'b'), (152, '€', 'c'), (127, '😀', 'ы'), (67, '𝄞', 'ж'), (66, '😀', 'ы'),
+                            (127, '\U000E0067', 'ы'), (67, '\U0010FFFF', 'ж'), (66, '\U000F0000', 'ы'), (127, '\U00050000', 'ы'), (67, '\U000CFFFF', 'ж')):
         offsets = range(-3, 3) if not ctx.thorough else range(-5, 5)
         for nseg in (1, 2, 3, 4):
             for off in offsets:
@@ -58,7 +60,7 @@ def gen_texts(ctx):
         if kind < 0.5:
             pool = 'abcXYZ 012@Δ' + '€{}[]~|^\\' * (2 if rng.random() < 0.5 else 0)
         else:
-            pool = 'abыжя你好' + '😀𝄞' * (2 if rng.random() < 0.5 else 0) + '€'
+            pool = 'abыжя你好' + '😀𝄞\U000E0067\U0010FFFF\U00090000' * (2 if rng.random() < 0.5 else 0) + '€'
         out.append(''.join(rng.choice(pool) for _ in range(L)))
     # dedupe keeping order
     seen = set()
